@@ -155,10 +155,15 @@ class Prod:
 
 
 class Zeros(Contract):
-    """numpoly.zeros(shape, dtype, order): the constant polynomial array built from numpy.zeros(shape, dtype, order) - every
-    parameter forwarded, the result is polynomial(<that array>), whose value is the constant 0 everywhere (B10)."""
-    name, func, relpath, properties = "numpoly.zeros", "zeros", "numpoly/array_function/zeros.py", ("C09", "C05")
+    """numpoly.zeros / numpoly.ones (shape, dtype, order): the constant polynomial array built from numpy.zeros / numpy.ones
+    (shape, dtype, order) - every parameter forwarded, the result is polynomial(<that array>), whose value is the constant 0 / 1
+    everywhere (B10)."""
+    properties = ("C09", "C05")
     positional = ("shape", "dtype", "order")
+
+    def __init__(self, fname="zeros", value=0):
+        self.func, self.name, self.value = fname, f"numpoly.{fname}", value
+        self.relpath = f"numpoly/array_function/{fname}.py"
 
     def cases(self):
         def make_env(ex):
@@ -182,20 +187,72 @@ class Zeros(Contract):
             if not ok:
                 return
             ex.oblige("post.shape_and_dtype_forwarded", z3.And(r.shape == ex.shp, src.shape == ex.shp, src.dtype == ex.dt), "post")
-            ex.oblige("post.array_of_zeros", ctx.forall_idx(lambda i: src.elem(i) == 0, ex.shp), "post")
-            ex.oblige("post.value_zero_everywhere", ctx.forall_idx(lambda i: r.val(i) == pzero, ex.shp), "post")
+            ex.oblige(f"post.array_of_{self.func}", ctx.forall_idx(lambda i: src.elem(i) == self.value, ex.shp), "post")
+            ex.oblige("post.value_constant_everywhere", ctx.forall_idx(lambda i: r.val(i) == pconst(z3.RealVal(self.value)), ex.shp), "post")
         yield Case("", make_env, check)
 
     def apply(self, ex, args, kw, node):
         from engine.polymodel import ShapeV
         shp = args[0]
-        if not isinstance(shp, ShapeV) or len(args) > 1 or kw:
-            raise U("numpoly.zeros in this form", node)
+        if not isinstance(shp, ShapeV) or len(args) > 1 or kw or self.func != "zeros":
+            raise U(f"numpoly.{self.func} in this form", node)
         ctx = ex.ctx
         r = Poly(ctx, ctx.fresh("zeros"), shape=shp.term, dtype=dt_float, region=Region("fresh", "zeros"))
         ctx.assume(r.wf(ctx))
         ctx.assume(ctx.forall_idx(lambda i: r.val(i) == pzero, shp.term))
         return r
+
+
+class LikeFill(Contract):
+    """numpoly.zeros_like / ones_like (a, dtype, order, subok, shape): polynomial(numpy.<same>(<one coefficient column of a>, dtype=,
+    order=, shape=)) - the constant 0 / 1 array with a's shape and coefficient dtype unless others are requested."""
+    properties = ("C09", "C12")
+    positional = ("a", "dtype", "order", "subok", "shape")
+
+    def __init__(self, fname, value):
+        self.func, self.name, self.value = fname, f"numpoly.{fname}", value
+        self.relpath = f"numpoly/array_function/{fname}.py"
+
+    def cases(self):
+        for dk in ("none", "given"):
+            for sk in ("none", "given"):
+                def make_env(ex, dk=dk, sk=sk):
+                    from engine.polymodel import ShapeV, DTypeV
+                    from contracts.baseclass import own_poly
+                    ctx = ex.ctx
+                    P = own_poly(ex, "a", allocation=False)
+                    for a in ring_axioms(ctx):
+                        ctx.assume(a)
+                    ex.P = P
+                    ex.shp = ctx.const("shape_arg", Shp)
+                    ex.dt = ctx.const("dtype_arg", DT)
+                    return {"a": P, "dtype": None if dk == "none" else DTypeV(ex.dt), "order": None, "subok": True,
+                            "shape": None if sk == "none" else ShapeV(ex.shp)}
+
+                def check(out, dk=dk, sk=sk):
+                    ex, ctx = out.ex, out.ctx
+                    P = ex.P
+                    ex.oblige(f"raises.nothing[{out.exc}]" if out.kind == "raise" else "raises.nothing", z3.BoolVal(out.kind == "return"), "post")
+                    if out.kind != "return":
+                        return
+                    r = out.value
+                    src = getattr(r, "constant_of", None)
+                    ok = isinstance(r, Poly) and isinstance(src, Arr) and getattr(src, "like_of", None) is not None
+                    ex.oblige("post.polynomial_of_a_filled_array", z3.BoolVal(ok), "post")
+                    if not ok:
+                        return
+                    proto = src.like_of[0]
+                    ex.oblige("post.prototype_is_a_coefficient_column_of_the_operand", z3.BoolVal(getattr(proto, "colview", (None,))[0] is P), "post")
+                    want_shape = P.shape if sk == "none" else ex.shp
+                    want_dtype = P.dtype if dk == "none" else ex.dt
+                    ex.oblige("post.shape", z3.And(r.shape == want_shape, src.shape == want_shape), "post")
+                    ex.oblige("post.dtype", src.dtype == want_dtype, "post", note="the operand's coefficient dtype unless another is requested")
+                    ex.oblige("post.filled", ctx.forall_idx(lambda i: src.elem(i) == self.value, want_shape), "post")
+                    ex.oblige("post.value_constant_everywhere", ctx.forall_idx(lambda i: r.val(i) == pconst(z3.RealVal(self.value)), want_shape), "post")
+                yield Case(f"dtype={dk},shape={sk}", make_env, check)
+
+    def apply(self, ex, args, kw, node):
+        raise U(f"{self.func} as a callee", node)
 
 
 class GetDivisionCandidate(Contract):
@@ -443,5 +500,5 @@ class Component(Contract):
         raise U(f"{self.func} as a callee", node)
 
 
-CONTRACTS = [ValueLevel("multiply", pmul), Power(), Zeros(), GetDivisionCandidate(), PolyDivmod(),
+CONTRACTS = [ValueLevel("multiply", pmul), Power(), Zeros("zeros", 0), Zeros("ones", 1), LikeFill("zeros_like", 0), LikeFill("ones_like", 1), GetDivisionCandidate(), PolyDivmod(),
              Component("poly_divide", 0, "divide"), Component("poly_remainder", 1, "remainder")]
